@@ -93,6 +93,8 @@ Apply(e) ==
            ELSE S([ns EXCEPT ![n] = r.ns], pc, [pend EXCEPT ![n] = r.out \o @], dm, bm, {})
       [] e.ev = "ptx" ->      \* a frame put on the bus by the reference peer (not a stack under test)
            LET b2 == Bm22Step(bm, dm.acc, Tr.cfg, n, e) IN S(ns, pc, pend, dm, b2.bm, IF Tr.expect.bus THEN b2.bad ELSE {})
+      [] e.ev = "papi" ->     \* the reference peer submits a message of its own (it is owed a delivery, too)
+           S(ns, pc, pend, DmAccept(dm, n, [dp |-> e.dp, pf |-> e.pf, ps |-> e.ps, prio |-> e.prio, sa |-> e.sa, data |-> e.data]), bm, {})
       [] e.ev = "wake" ->
            IF pc[n].ph # "idle" THEN Fail("wake while running")
            ELSE IF e.why = "token"
@@ -135,6 +137,7 @@ Apply(e) ==
            ELSE IF e.poolBam # AbsPool(ns[n].poolBam) THEN Fail("BAM session number pool differs")
            ELSE IF e.tok # ns[n].tok THEN Fail("wake-up tokens differ")
            ELSE S(ns, pc, pend, dm, bm, {})
+      [] e.ev = "perr" -> IF Tr.expect.bus THEN Fail(e.msg) ELSE S(ns, pc, pend, dm, bm, {})
       [] e.ev = "jobdead" -> Fail("job thread died")
       [] e.ev = "spin" -> Fail("job thread busy-spins")
       [] e.ev \in {"lost", "silence", "token", "note", "end"} -> S(ns, pc, pend, dm, bm, {})
